@@ -93,5 +93,40 @@ def r3(ctx):
     ctx.check('who-calls-accept_synchronization', {SRC + '::handle_timer', SRC + '::process_message'} <= set(who), 'callers: %s' % who, sample=who)
 
 
-RULES = [r1, r2, r3]
-FLOORS = {'C33-R1': 6, 'C33-R2': 7, 'C33-R3': 5}
+def r4(ctx):
+    ctx.rule('C33-R4', 'one server id: NtpManager::new creates exactly one ServerId and stores that same value in NtpManager.server_id (advertised through '
+             'from_used_sources(.., self.server_id, ..)) and in the NtpSourceInfo shared with every source (the id accept_synchronization looks for); nothing rewrites either field; '
+             'new_source hands sources the shared source_info')
+    P = ctx.P
+    b = P.body('ntp_proto::system::NtpManager::new')
+    ids = b.calls(r'ServerId::(default|new)$|<ntp_proto::packet::v5::server_reference_id::ServerId as core::default::Default>::default$')
+    ids = [c for c in ids] or [c for c in b.calls(r'Default::default$') if re.search(r'ServerId', b.locals[c.data['dest']['l']]['ty'] if c.data.get('dest') else '')]
+    ctx.check('new|one-server-id', len(ids) == 1, 'ServerId values created in NtpManager::new: %d' % len(ids), sample=len(ids))
+    si = b.aggregates(r'system::NtpSourceInfo$')
+    mg = b.aggregates(r'system::NtpManager$')
+    ctx.check('new|literals', len(si) == 1 and len(mg) == 1, 'NtpSourceInfo literals %d, NtpManager literals %d' % (len(si), len(mg)), sample=[len(si), len(mg)])
+    if len(si) == 1 and len(mg) == 1:
+        f1 = dict(zip(si[0].data['rv']['fields'], [S(b.operand_term(o)) for o in si[0].data['rv']['ops']]))
+        f2 = dict(zip(mg[0].data['rv']['fields'], [S(b.operand_term(o)) for o in mg[0].data['rv']['ops']]))
+        t1 = b.operand_term(si[0].data['rv']['ops'][si[0].data['rv']['fields'].index('server_id')])
+        t2 = b.operand_term(mg[0].data['rv']['ops'][mg[0].data['rv']['fields'].index('server_id')])
+        same = f1.get('server_id') == f2.get('server_id') and unlet(t1) == unlet(t2) and re.search(r'NtpSourceInfo::default|\.server_id$', f1.get('server_id', '')) is None
+        ctx.check('new|same-id-advertised-and-checked', same, 'sources check for `%s` but the manager advertises `%s`' % (f1.get('server_id'), f2.get('server_id')), si[0].where(),
+                  sample={'source_info': f1.get('server_id'), 'manager': f2.get('server_id')})
+        ctx.check('new|source_info-stored', re.match(r'^Arc::new\(RwLock::new\(NtpSourceInfo\{', f2.get('source_info', '')) is not None, 'NtpManager.source_info = %s' % f2.get('source_info', '')[:80], mg[0].where(), sample=True)
+    for adt in (r'system::NtpSourceInfo$', r'system::NtpManager$'):
+        ws = [x.npath for x, s in P.field_writers('server_id', adt)]
+        ctx.check('server_id|no-later-writes|%s' % adt.split('::')[-1].rstrip('$'), not ws, 'server_id rewritten in %s' % ws, sample=len(ws))
+    others = [x.npath for x in P.bodies.values() if x.raw['promoted'] is None and x.aggregates(r'system::NtpSourceInfo$') and x.id != b.id and
+              not re.search(r' as core::(default::Default|clone::Clone)>::', x.npath)]
+    ctx.check('NtpSourceInfo|one-constructor', not others, 'NtpSourceInfo also built in %s' % others, sample=len(others))
+    u = P.body('ntp_proto::system::NtpManager::update_used_sources')
+    fu = u.calls(r'NtpSnapshot::from_used_sources$')
+    ctx.check('update_used_sources|advertises-own-id', len(fu) == 1 and S(u.call_args(fu[0])[1]) == 'self.server_id', 'from_used_sources called with %s' % [S(u.call_args(c)[1]) for c in fu], sample=len(fu))
+    n = P.body('ntp_proto::system::NtpManager::new_source')
+    ns = n.calls(r'NtpSource::new$')
+    ctx.check('new_source|shared-source_info', len(ns) == 1 and 'Arc::clone(self.source_info)' in [S(a) for a in n.call_args(ns[0])], 'NtpSource::new arguments %s' % [[S(a)[:40] for a in n.call_args(c)] for c in ns], sample=len(ns))
+
+
+RULES = [r1, r2, r3, r4]
+FLOORS = {'C33-R1': 6, 'C33-R2': 7, 'C33-R3': 5, 'C33-R4': 8}
